@@ -31,6 +31,15 @@ func str(s string) *sg.TypeSpec { return &sg.TypeSpec{Name: s} }
 func inject(mods []*sg.Mod, d string, pick func(n int) int) {
 	m := mods[pick(len(mods))]
 	last := mods[len(mods)-1]
+	// definitions may be injected into a submodule; the data nodes that use them go into the module it belongs to
+	host := m
+	if m.BelongsTo != "" {
+		for _, x := range mods {
+			if x.Name == m.BelongsTo {
+				host = x
+			}
+		}
+	}
 	// a link of a cycle inside one module may be written with the module's own prefix
 	ownPfx := pick(3) == 1
 	str := func(s string) *sg.TypeSpec {
@@ -60,36 +69,36 @@ func inject(mods []*sg.Mod, d string, pick func(n int) int) {
 		// submodules are appended by the caller through extra modules
 	case "typedef-cycle-used":
 		m.Typedefs = append(m.Typedefs, &sg.Typedef{Name: "cyc-a", Type: str("cyc-b")}, &sg.Typedef{Name: "cyc-b", Type: str("cyc-a")})
-		m.Nodes[0].Kids = append(m.Nodes[0].Kids, &sg.Node{Kind: "leaf", Name: "cyc-leaf", Type: str("cyc-a")})
+		host.Nodes[0].Kids = append(host.Nodes[0].Kids, &sg.Node{Kind: "leaf", Name: "cyc-leaf", Type: str("cyc-a")})
 	case "typedef-cycle-unused":
 		m.Typedefs = append(m.Typedefs, &sg.Typedef{Name: "cyc-a", Type: str("cyc-b")}, &sg.Typedef{Name: "cyc-b", Type: str("cyc-a")})
 	case "typedef-self":
 		m.Typedefs = append(m.Typedefs, &sg.Typedef{Name: "cyc-a", Type: str("cyc-a")})
-		m.Nodes[0].Kids = append(m.Nodes[0].Kids, &sg.Node{Kind: "leaf", Name: "cyc-leaf", Type: str("cyc-a")})
+		host.Nodes[0].Kids = append(host.Nodes[0].Kids, &sg.Node{Kind: "leaf", Name: "cyc-leaf", Type: str("cyc-a")})
 	case "typedef-cycle-cross-scope":
 		// a typedef local to a container refers to a module-level typedef that refers back by union membership
 		m.Typedefs = append(m.Typedefs, &sg.Typedef{Name: "cyc-a", Type: &sg.TypeSpec{Name: "union", Members: []*sg.TypeSpec{str("int8"), str("cyc-b")}}},
 			&sg.Typedef{Name: "cyc-b", Type: str("cyc-a")})
-		m.Nodes[0].Kids = append(m.Nodes[0].Kids, &sg.Node{Kind: "leaf", Name: "cyc-leaf", Type: str("cyc-b")})
+		host.Nodes[0].Kids = append(host.Nodes[0].Kids, &sg.Node{Kind: "leaf", Name: "cyc-leaf", Type: str("cyc-b")})
 	case "grouping-cycle-direct":
 		m.Groupings = append(m.Groupings, &sg.Grouping{Name: "cyc-ga", Kids: []*sg.Node{{Kind: "uses", Name: ref("cyc-gb")}}},
 			&sg.Grouping{Name: "cyc-gb", Kids: []*sg.Node{{Kind: "uses", Name: ref("cyc-ga")}}})
-		m.Nodes[0].Kids = append(m.Nodes[0].Kids, &sg.Node{Kind: "uses", Name: ref("cyc-ga")})
+		host.Nodes[0].Kids = append(host.Nodes[0].Kids, &sg.Node{Kind: "uses", Name: ref("cyc-ga")})
 	case "grouping-cycle-nested":
 		m.Groupings = append(m.Groupings, &sg.Grouping{Name: "cyc-ga", Kids: []*sg.Node{{Kind: "container", Name: "cyc-c", Kids: []*sg.Node{{Kind: "uses", Name: ref("cyc-ga")}}}}})
-		m.Nodes[0].Kids = append(m.Nodes[0].Kids, &sg.Node{Kind: "uses", Name: ref("cyc-ga")})
+		host.Nodes[0].Kids = append(host.Nodes[0].Kids, &sg.Node{Kind: "uses", Name: ref("cyc-ga")})
 	case "grouping-cycle-unused":
 		m.Groupings = append(m.Groupings, &sg.Grouping{Name: "cyc-ga", Kids: []*sg.Node{{Kind: "list", Name: "cyc-l", Key: "k", Kids: []*sg.Node{{Kind: "leaf", Name: "k", Type: str("string")}, {Kind: "uses", Name: ref("cyc-ga")}}}}})
 	case "grouping-cycle-via-choice":
 		m.Groupings = append(m.Groupings, &sg.Grouping{Name: "cyc-ga", Kids: []*sg.Node{{Kind: "choice", Name: "cyc-ch", Kids: []*sg.Node{{Kind: "case", Name: "cyc-cs", Kids: []*sg.Node{{Kind: "uses", Name: ref("cyc-gb")}}}}}}},
 			&sg.Grouping{Name: "cyc-gb", Kids: []*sg.Node{{Kind: "container", Name: "cyc-c2", Kids: []*sg.Node{{Kind: "uses", Name: ref("cyc-ga")}}}}})
-		m.Nodes[0].Kids = append(m.Nodes[0].Kids, &sg.Node{Kind: "uses", Name: ref("cyc-gb")})
+		host.Nodes[0].Kids = append(host.Nodes[0].Kids, &sg.Node{Kind: "uses", Name: ref("cyc-gb")})
 	case "grouping-cycle-via-uses-augment":
 		// the closing uses of the cycle sits inside the augment of another uses
 		m.Groupings = append(m.Groupings, &sg.Grouping{Name: "cyc-gh", Kids: []*sg.Node{{Kind: "container", Name: "cyc-x"}}},
 			&sg.Grouping{Name: "cyc-ga", Kids: []*sg.Node{{Kind: "container", Name: "cyc-c", Kids: []*sg.Node{{Kind: "uses", Name: ref("cyc-gh"),
 				Augments: []*sg.Augment{{Target: "cyc-x", Kids: []*sg.Node{{Kind: "uses", Name: ref("cyc-ga")}}}}}}}}})
-		m.Nodes[0].Kids = append(m.Nodes[0].Kids, &sg.Node{Kind: "uses", Name: ref("cyc-ga")})
+		host.Nodes[0].Kids = append(host.Nodes[0].Kids, &sg.Node{Kind: "uses", Name: ref("cyc-ga")})
 	case "grouping-cycle-via-uses-augment-nested":
 		// ... two groupings, the uses nested in a list inside the augment
 		m.Groupings = append(m.Groupings, &sg.Grouping{Name: "cyc-gh", Kids: []*sg.Node{{Kind: "container", Name: "cyc-x"}}},
@@ -97,7 +106,7 @@ func inject(mods []*sg.Mod, d string, pick func(n int) int) {
 				Augments: []*sg.Augment{{Target: "cyc-x", Kids: []*sg.Node{{Kind: "list", Name: "cyc-l", Key: "k", Kids: []*sg.Node{{Kind: "leaf", Name: "k", Type: str("string")}, {Kind: "uses", Name: ref("cyc-gb")}}}}}}}}},
 			&sg.Grouping{Name: "cyc-gb", Kids: []*sg.Node{{Kind: "container", Name: "cyc-c2", Kids: []*sg.Node{{Kind: "uses", Name: ref("cyc-ga")}}}}})
 		if pick(2) == 0 {
-			m.Nodes[0].Kids = append(m.Nodes[0].Kids, &sg.Node{Kind: "uses", Name: ref("cyc-gb")})
+			host.Nodes[0].Kids = append(host.Nodes[0].Kids, &sg.Node{Kind: "uses", Name: ref("cyc-gb")})
 		}
 	case "grouping-cycle-long":
 		names := []string{"cyc-g1", "cyc-g2", "cyc-g3", "cyc-g4"}
@@ -105,7 +114,7 @@ func inject(mods []*sg.Mod, d string, pick func(n int) int) {
 			m.Groupings = append(m.Groupings, &sg.Grouping{Name: n, Kids: []*sg.Node{{Kind: "leaf", Name: "cyc-l" + fmt.Sprint(i), Type: str("string")},
 				{Kind: "container", Name: "cyc-c" + fmt.Sprint(i), Kids: []*sg.Node{{Kind: "uses", Name: ref(names[(i+1)%len(names)])}}}}})
 		}
-		m.Nodes[0].Kids = append(m.Nodes[0].Kids, &sg.Node{Kind: "uses", Name: ref("cyc-g3")})
+		host.Nodes[0].Kids = append(host.Nodes[0].Kids, &sg.Node{Kind: "uses", Name: ref("cyc-g3")})
 	case "identity-cycle":
 		m.Identities = append(m.Identities, &sg.Identity{Name: "cyc-ia", Base: ref("cyc-ib")}, &sg.Identity{Name: "cyc-ib", Base: ref("cyc-ia")})
 	case "identity-self":
@@ -119,15 +128,15 @@ func inject(mods []*sg.Mod, d string, pick func(n int) int) {
 	case "dangling-include":
 		m.Includes = append(m.Includes, "no-such-submodule")
 	case "dangling-type":
-		m.Nodes[0].Kids = append(m.Nodes[0].Kids, &sg.Node{Kind: "leaf", Name: "dang-leaf", Type: str("no-such-type")})
+		host.Nodes[0].Kids = append(host.Nodes[0].Kids, &sg.Node{Kind: "leaf", Name: "dang-leaf", Type: str("no-such-type")})
 	case "dangling-uses":
-		m.Nodes[0].Kids = append(m.Nodes[0].Kids, &sg.Node{Kind: "uses", Name: "no-such-grouping"})
+		host.Nodes[0].Kids = append(host.Nodes[0].Kids, &sg.Node{Kind: "uses", Name: "no-such-grouping"})
 	case "dangling-base":
 		m.Identities = append(m.Identities, &sg.Identity{Name: "dang-i", Base: "no-such-identity"})
 	case "dangling-if-feature":
-		m.Nodes[0].Kids = append(m.Nodes[0].Kids, &sg.Node{Kind: "leaf", Name: "dang-leaf", Type: str("string"), IfFeatures: []string{"no-such-feature"}})
+		host.Nodes[0].Kids = append(host.Nodes[0].Kids, &sg.Node{Kind: "leaf", Name: "dang-leaf", Type: str("string"), IfFeatures: []string{"no-such-feature"}})
 	case "dangling-prefix":
-		m.Nodes[0].Kids = append(m.Nodes[0].Kids, &sg.Node{Kind: "leaf", Name: "dang-leaf", Type: str("nopfx:sometype")})
+		host.Nodes[0].Kids = append(host.Nodes[0].Kids, &sg.Node{Kind: "leaf", Name: "dang-leaf", Type: str("nopfx:sometype")})
 	case "belongs-to-missing":
 		// handled by the caller (extra submodule)
 	}
